@@ -20,6 +20,7 @@ def main():
     ap.add_argument("--name")
     ap.add_argument("--src")
     ap.add_argument("--wt")
+    ap.add_argument("--tags", default="")
     a = ap.parse_args()
     src = a.src or "/tmp/seedout/%s" % (a.name or a.pid)
     patch = os.path.join(src, "patch.diff")
@@ -43,7 +44,8 @@ def main():
         meta["demo_files"] = demo_paths
         demo_pkgs = sorted({"./" + os.path.dirname(p) for p in demo_paths})
         # 1. unchanged code: demo passes
-        rc0, out0 = sh("go test -count=1 %s" % " ".join(demo_pkgs), cwd=wt) if demo_pkgs else (0, "")
+        tg = ("-tags %s " % a.tags) if a.tags else ""
+        rc0, out0 = sh("go test %s-count=1 %s" % (tg, " ".join(demo_pkgs)), cwd=wt) if demo_pkgs else (0, "")
         meta["demo_passes_without_change"] = rc0 == 0
         # 2. apply patch: builds, existing suite (demo moved away) passes, demo fails
         rc, out = sh("git apply %s" % patch, cwd=wt)
@@ -56,7 +58,7 @@ def main():
         meta["suite_passes_with_change"] = rct == 0
         for dp in demo_paths:
             os.rename(os.path.join(wt, dp) + ".off", os.path.join(wt, dp))
-        rc1, out1 = sh("go test -count=1 %s" % " ".join(demo_pkgs), cwd=wt) if demo_pkgs else (1, "")
+        rc1, out1 = sh("go test %s-count=1 %s" % (tg, " ".join(demo_pkgs)), cwd=wt) if demo_pkgs else (1, "")
         meta["demo_fails_with_change"] = rc1 != 0
         print("confirm:", {k: meta[k] for k in ("builds", "suite_passes_with_change", "demo_passes_without_change", "demo_fails_with_change")}, flush=True)
         if not meta["suite_passes_with_change"]:
